@@ -1048,3 +1048,34 @@ def rule_conjunct(S, res, phases, cs):
     res.count("compound_comparisons_of_message_values", n)
     if not bad:
         res.ok("R2.10", "engine", "", "%d comparison(s) of received values that continue into another comparison: each looks at the same value again (alternatives), none needs a second wrong value to reject" % n)
+
+
+def rule_claimed_bit(S, res, cs):
+    """aShare step 3c: the check bits the peers claim arrive with MACs under the own key; they are verified, before
+    the opening, against the value that is about to be opened (shared by C04 and C07)."""
+    mine = [c for c in cs if "fashare ver" in c.labels and {"CMP", "DELTA"} <= c.ing]
+    opens = [s_ for s_ in S.inv.direct_sites() if "fashare di_bi" in (s_.label or []) and s_.body.owner.endswith("faand::fashare")]
+    if not mine:
+        res.bad("R2.1", "fashare ver|claimed-bit-mac", "aShare: the XOR of the peers' claimed check bits selects whether d0 or d0^Delta is opened, but the claims' MACs under the own key are never verified: a peer that misreports its bit obtains d0^Delta and, with the MAC it holds, Delta", "src/mpc/faand.rs (fashare, step 3c)")
+    elif not opens:
+        res.bad("R2.1", "fashare ver|claimed-bit-mac", "cannot locate the `fashare di_bi` opening in fashare")
+    else:
+        # the check sits in the loop over the RHO check positions: "before" = the opening is reached from
+        # the check and the check is never reached from the opening
+        before = [c for c in mine if all(c.bk == o.bk and o.block in c.body.reachable_from(c.block) and c.block not in c.body.reachable_from(o.block) for o in opens)]
+        # ... and it is the value about to be opened that the claimed MACs are compared with (d0 or d1 *as selected by
+        # the claimed bits*): a comparison with "d0 or d1, whichever fits" accepts a misreported bit
+        from an import root_local as _rl
+        bound = []
+        for c in before:
+            for o in opens:
+                pl = _rl(o.body, o.term["args"][-1])
+                if pl is not None and any(n[0] == c.bk and n[1] == pl for n in c.cond_nodes):
+                    bound.append(c)
+        if before and not bound:
+            res.bad("R2.1", "fashare ver|claimed-bit-mac", "the MACs of the claimed check bits are not compared with the value that is opened afterwards (the one of d0 / d0^Delta selected by those bits): a peer that misreports its bit but sends its true MAC passes, and obtains the other value", before[0].where(),
+                    key="R2.1|fashare ver|claimed-bit-mac|selected")
+        elif before:
+            res.ok("R2.1", "fashare ver|claimed-bit-mac", before[0].where(), "the claimed bits are MAC-checked with the own key and Delta, and that check lies before the opening of d0/d1 (`fashare di_bi`)")
+        else:
+            res.bad("R2.1", "fashare ver|claimed-bit-mac", "the MAC check of the claimed bits does not precede the opening of d0/d1 (`fashare di_bi`): the value selected by a misreported bit is sent before the claim is verified", mine[0].where())
